@@ -66,6 +66,28 @@ SPECS = {
         'theorems': ['IblVerif.Tie.C13.chunk_local_eq'],
         'covers': 'write_wfs_chunk: chunk-local spike sample and the bounds of the snippet read for a chunk',
     },
+    'C06': {
+        'items': [
+            {'name': 'destripe_worker', 'module': 'ibldsp/voltage.py', 'function': 'decompress_destripe_cbin.my_function', 'kind': 'events',
+             'assume': {'compute_rms': True},
+             'params': ['i_chunk', 'n_chunk', 'CHUNK_SIZE', 'NBATCH', 'SAMPLES_TAPER', '_sr_ns', 'offset', 'nc_out', 'nbytes',
+                        'rms_offset', 'time_offset', 'ncv', 'rms_nbytes', 'ns2add'],
+             'events': [
+                 [r'^fid\.seek\((.*)\)$', 'seek', [r'\1']],
+                 [r'^aid\.seek\((.*)\)$', 'aseek', [r'\1']],
+                 [r'^tid\.seek\((.*)\)$', 'tseek', [r'\1']],
+                 [r'^np\.tile\(.*\)\.tofile\(\s*fid\s*\)$', 'pad', ['ns2add']],
+                 [r'\.tofile\(fid\)$', 'write', ['first_s', 'last_s', 'ind2save[0]', 'ind2save[1]']],
+                 [r'\.tofile\(aid\)$', 'rms', ['first_s', 'last_s']],
+                 [r'\.tofile\(tid\)$', 'time', ['first_s', 'last_s']],
+             ]},
+            {'name': 'destripe_chunk_size', 'module': 'ibldsp/voltage.py', 'function': 'decompress_destripe_cbin', 'kind': 'expr',
+             'target': 'CHUNK_SIZE', 'params': ['sr_ns', 'nprocesses']},
+        ],
+        'theorems': ['IblVerif.Tie.C06.worker_eq', 'IblVerif.Tie.C06.chunk_size_eq'],
+        'covers': 'decompress_destripe_cbin.my_function: start batch, seek positions, the while-loop of batches with its kept rows, '
+                  'stop rule and padding (sequence of file events), CHUNK_SIZE',
+    },
     'C11': {
         'items': [
             {'name': 'online_ns', 'module': 'spikeglx.py', 'function': 'OnlineReader.ns', 'kind': 'fn',
